@@ -7,7 +7,7 @@ for arg in sys.argv[1:]:
     pid, _, rest = arg.partition(":")
     explicit = dict(x.split("=") for x in rest.split(",") if x)
     for k in (1, 2):
-        src = "/tmp/wt3/%s.out/change%d" % (pid, k)
+        src = "%s/%s.out/change%d" % (os.environ.get("WT", "/tmp/wt3"), pid, k)
         if not os.path.exists(src + "/patch.diff"):
             continue
         sid = explicit.get(str(k), "S-%s-%d" % (pid, k + 2))
